@@ -13,7 +13,7 @@ PROPERTY = 'C05'
 LEVEL = 'exploration'
 TECHNIQUE = 'runtime contract on CollBase attributes checked in extended precision (mpmath) + qmat reference on [0,1]'
 RULE = (
-    'one case = one CollBase(num_nodes, tleft, tright, node_type, quad_type); the (node_type x quad_type x num_nodes 1..16) '
+    'one case = one (node_type, quad_type, num_nodes 1..16) with a sequence of CollBase objects built one after the other in one process on [0,1], shifted copies of identical length, repeats and seeded hostile intervals; the (type x type x count) '
     'grid is enumerated completely, intervals are [0,1] plus seeded random ones (negative, large offset up to 1e6, width down to 1e-3); '
     'non-trivial = the object was constructed and at least the weight-exactness and Q/S-exactness oracles ran; distinct by '
     '(node_type, quad_type, num_nodes, interval)'
@@ -58,13 +58,16 @@ def intervals(tier, seed):
 
 
 def cases(tier, seed):
+    """one case = one (node_type, quad_type, num_nodes) and a *sequence* of intervals built one after the other in the same
+    process (several with bit-identical length but different offset, and repeats), so that state leaking from one object
+    into the next (caches keyed too coarsely) is observable."""
     ivs = intervals(tier, seed)
+    seq = [(0.0, 1.0), (1.0, 2.0), (-1.0, 0.0), (3.0, 4.0), (0.0, 0.5), (0.5, 1.0)] + ivs[1:] + [(0.0, 1.0), (2.0, 4.0), (0.0, 2.0)]
     cs = []
     for nt in NODE_TYPES:
         for qt in QUAD_TYPES:
             for M in range(1, 17):
-                for a, b in ivs:
-                    cs.append(dict(nt=nt, qt=qt, M=M, a=a, b=b, _cost=M * M))
+                cs.append(dict(nt=nt, qt=qt, M=M, ivs=[list(x) for x in seq], _cost=M * M))
     return cs
 
 
@@ -73,6 +76,28 @@ def expected_reject(qt, M):
 
 
 def run_case(case):
+    r = Result(case)
+    r.key = f"{case['nt']}/{case['qt']}/{case['M']}"
+    nontrivial = 0
+    for i, (a, b) in enumerate(case['ivs']):
+        sub = Result(case)
+        judge(sub, case['nt'], case['qt'], case['M'], float(a), float(b), i)
+        for v in sub.violations:
+            r.violations.append(v)
+        r.inconclusive += sub.inconclusive
+        for k, v in sub.counters.items():
+            r.counters[k] = r.counters.get(k, 0) + v
+        for k, v in sub.seen.items():
+            r.seen.setdefault(k, set()).update(v)
+        nontrivial += bool(sub.nontrivial)
+        if sub.sample and r.sample is None and i == 7:
+            r.sample = sub.sample
+    r.nontrivial = nontrivial > 0
+    r.counters['objects_judged'] = nontrivial
+    return r
+
+
+def judge(r, nt, qt, M, a, b, idx):
     import mpmath as mp
     from qmat import Q_GENERATORS
 
@@ -80,8 +105,7 @@ def run_case(case):
     from pySDC.core.errors import CollocationError
 
     mp.mp.dps = 60
-    r = Result(case)
-    nt, qt, M, a, b = case['nt'], case['qt'], case['M'], case['a'], case['b']
+    case = dict(nt=nt, qt=qt, M=M, a=a, b=b, _i=idx)
     r.key = f'{nt}/{qt}/{M}/{a!r}/{b!r}'
     try:
         c = CollBase(num_nodes=M, tleft=a, tright=b, node_type=nt, quad_type=qt)
